@@ -102,6 +102,8 @@ def main():
                  'tools/translate/encodings2lean.py + tools/translate/pytr (the translated subset of lib/encodings.py) and the kit Model/EncodingsPy.lean '
                  '(str.lower/upper on ASCII letters, the module tables / codec registry / bytes.decode outcomes / charmap files as parameters, the CPython '
                  'exception hierarchy, charmap_build = encLookup)',
+                 'tools/translate/ling2lean.py and the kit Model/LingPy.lean (a Language object is its three codes; _get_characters and str.encode are parameters; '
+                 'UnicodeError catches UnicodeEncodeError; the reason test of the iconv(1) fall-back)',
                  'the correspondence harness (tools/checks/charset_common.py, Driver/Charset.lean)'],
         explanation=EXPLANATION)
 
@@ -137,6 +139,9 @@ EXPLANATION = (
     'generated_is_ascii_compatible_encoding_eq_model, generated_encodings_decode_eq_model, generated_charmap_encoding_eq_model, '
     'generated_codec_search_function_eq_model; restated: ascii_verdict_bytewise_generated, ascii_unknown_generated, proposal_portable_generated, '
     'proposal_sound_generated, loader_decode_total_generated, codec_search_extra_generated (twin streams charset-names-generated, charset-loader-generated). '
+    'Likewise lib/ling.py Language._simple_format and Language.get_unrepresentable_characters (tools/translate/ling2lean.py -> Generated/LingFn.lean over the kit '
+    'Model/LingPy.lean; _get_characters and str.encode are parameters): generated_simple_format_eq_model, generated_get_unrepresentable_characters_eq_model, '
+    'unrepresentable_iff_generated (twin stream charset-characters-generated). '
     'End to end (the loop composed with a reference iconv for the charset): euctw_codec_decode, euctw_codec_encode, euctw_codec_roundtrip, '
     'koi8t_codec. loader_decode_total. unrepresentable_iff, check_unrepresentable_iff, check_classification, check_total, '
     'extra_codecs_encode_ok (EncodeOk is a theorem for the charmap codecs and EUC-TW). '
